@@ -106,6 +106,12 @@ class Path:
     locals: dict[str, Any] = field(default_factory=dict)
     calls: list[tuple[ast.Call, str, list, dict]] = field(default_factory=list)
     yields: list[Any] = field(default_factory=list)
+    events: list[tuple] = field(default_factory=list)  # ('call'|'yield'|'store'|'return'|'raise', ...), in execution order
+
+    def calls_to(self, pred: Any) -> list[tuple]:
+        """[(name, args, kwargs, ctx)] of call events whose callee name satisfies pred (str or callable)."""
+        f = (lambda n: n == pred) if isinstance(pred, str) else pred
+        return [(e[1], e[2], e[3], e[5]) for e in self.events if e[0] == 'call' and f(e[1])]
 
 
 def tok(name: str) -> Tok:
@@ -131,6 +137,8 @@ class SymEval:
         self.used: list[str] = []
         self.calls: list = []
         self.yields: list = []
+        self.events: list = []
+        self.ctx: list = []
         self.depth = 0
 
     # ------------------------------------------------------------------ driver
@@ -145,6 +153,8 @@ class SymEval:
             self.decisions = dec
             self.calls = []
             self.yields = []
+            self.events = []
+            self.ctx = []
             obj = None
             if self_obj is not None:
                 obj = Obj(self_obj.cls, dict(self_obj.attrs), self_obj.name, self_obj.default_attr)
@@ -156,11 +166,15 @@ class SymEval:
                 frame = Frame(self, fn, a2, obj)
                 try:
                     ret = frame.run()
+                    self.events.append(('return', ret))
                     paths.append(Path(dict(dec), ret=ret, attrs=dict(obj.attrs) if obj else {},
-                                      locals=dict(frame.locals), calls=list(self.calls), yields=list(self.yields)))
+                                      locals=dict(frame.locals), calls=list(self.calls), yields=list(self.yields),
+                                      events=list(self.events)))
                 except Raised as r:
+                    self.events.append(('raise', r.exc))
                     paths.append(Path(dict(dec), raised=r.exc, attrs=dict(obj.attrs) if obj else {},
-                                      locals=dict(frame.locals), calls=list(self.calls), yields=list(self.yields)))
+                                      locals=dict(frame.locals), calls=list(self.calls), yields=list(self.yields),
+                                      events=list(self.events)))
             except NeedDecision as nd:
                 for v in (False, True):
                     d2 = dict(dec)
@@ -334,13 +348,15 @@ class Frame:
         if isinstance(st, ast.For):
             it = self.eval(st.iter)
             self.assign(st.target, Opaque(f'elem({_tag(it)})'))
+            self.ev.ctx.append(f'for:{_tag(it)}')
         else:
-            if isinstance(st.test, ast.Constant) and st.test.value:
-                pass
+            self.ev.ctx.append('while')
         try:
             self.block(st.body)
         except (_Break, _Continue):
             pass
+        finally:
+            self.ev.ctx.pop()
         tag = f'loop@{norm_src(st.target) if isinstance(st, ast.For) else "while"}'
         for k, v in list(self.locals.items()):
             if k in before and before[k] != v and not isinstance(v, Obj):
@@ -359,6 +375,7 @@ class Frame:
             base = self.eval(t.value)
             if isinstance(base, Obj):
                 base.attrs[t.attr] = v
+                self.ev.events.append(('store', f'{base.name}.{t.attr}', v, t, tuple(self.ev.ctx)))
             # stores on opaque objects are ignored
         elif isinstance(t, (ast.Tuple, ast.List)):
             if isinstance(v, (tuple, list)) and len(v) == len(t.elts):
@@ -659,6 +676,19 @@ class Frame:
             if isinstance(a, BV) and isinstance(b, int) and isinstance(op, (ast.Eq, ast.NotEq)) and b == 0:
                 t = self.truth_value(a)
                 return (not t) if isinstance(op, ast.Eq) else t
+            if isinstance(b, BV) and isinstance(a, int) and not isinstance(a, bool):
+                a, b = b, a
+            if isinstance(a, BV) and isinstance(b, int) and not isinstance(b, bool) and isinstance(op, (ast.Eq, ast.NotEq)):
+                # decide every bit the comparison depends on
+                while ALL & ~a.known:
+                    unknown = ALL & ~a.known
+                    if (a.val ^ b) & a.known:
+                        break  # already different on a known bit
+                    low = unknown & -unknown
+                    self._decide_bit(a.origin, low)
+                    a = self._refine(a)
+                eq = (a.known == ALL and a.val == (b & ALL))
+                return eq if isinstance(op, ast.Eq) else not eq
             neg = isinstance(op, (ast.NotEq, ast.NotIn, ast.IsNot))
             base = {ast.NotEq: '==', ast.Eq: '==', ast.In: 'in', ast.NotIn: 'in', ast.Is: 'is', ast.IsNot: 'is',
                     ast.Lt: '<', ast.LtE: '<=', ast.Gt: '>', ast.GtE: '>='}[type(op)]
@@ -695,17 +725,56 @@ class Frame:
                 pass
         return Opaque(f'{_tag(base)}[{_tag(idx)}]')
 
+    def comprehension(self, n: Any) -> Any:
+        """Abstract a comprehension: element expression evaluated once with an opaque element of each iterable."""
+        saved = dict(self.locals)
+        tags = []
+        pushed = 0
+        try:
+            for g in n.generators:
+                it = self.eval(g.iter)
+                self.assign(g.target, Opaque(f'elem({_tag(it)})'))
+                self.ev.ctx.append(f'for:{_tag(it)}')
+                pushed += 1
+                tags.append(_tag(it))
+                for cond in g.ifs:
+                    if not self.truth(cond):
+                        return Opaque(f'comp(<filtered> for {" ".join(tags)})')
+            if isinstance(n, ast.DictComp):
+                elt = (self.eval(n.key), self.eval(n.value))
+            else:
+                elt = self.eval(n.elt)
+            return Opaque(f'comp({_tag(elt)} for {" ".join(tags)})')
+        finally:
+            for _ in range(pushed):
+                self.ev.ctx.pop()
+            self.locals = saved
+
+    def x_GeneratorExp(self, n: ast.GeneratorExp) -> Any:
+        return self.comprehension(n)
+
+    def x_ListComp(self, n: ast.ListComp) -> Any:
+        return self.comprehension(n)
+
+    def x_SetComp(self, n: ast.SetComp) -> Any:
+        return self.comprehension(n)
+
+    def x_DictComp(self, n: ast.DictComp) -> Any:
+        return self.comprehension(n)
+
     def x_Lambda(self, n: ast.Lambda) -> Any:
         return Opaque(f'lambda@{n.lineno}')
 
     def x_Yield(self, n: ast.Yield) -> Any:
         v = self.eval(n.value) if n.value is not None else None
         self.ev.yields.append(v)
+        self.ev.events.append(('yield', v, n, tuple(self.ev.ctx)))
         return None
 
     def x_YieldFrom(self, n: ast.YieldFrom) -> Any:
         v = self.eval(n.value)
         self.ev.yields.append(('from', v))
+        self.ev.events.append(('yield', ('from', v), n, tuple(self.ev.ctx)))
         return None
 
     def x_Call(self, n: ast.Call) -> Any:
@@ -748,6 +817,10 @@ class Frame:
                     return {'set': frozenset, 'frozenset': frozenset, 'list': list, 'tuple': tuple}[f.id](v)
                 except TypeError:
                     return Opaque(f'{f.id}({_tag(v)})')
+        if isinstance(f, ast.Name) and f.id in ('any', 'all') and f.id not in self.locals and len(n.args) == 1 and \
+                isinstance(n.args[0], (ast.GeneratorExp, ast.ListComp)):
+            inner = self.comprehension(n.args[0])
+            return Opaque(f'{f.id}({_tag(inner)})')
         args = [self.eval(a) for a in n.args if not isinstance(a, ast.Starred)]
         kwargs = {k.arg: self.eval(k.value) for k in n.keywords if k.arg}
         for k in n.keywords:
@@ -766,6 +839,7 @@ class Frame:
         name = self._callee_name(f, target)
         if self.ev.watch_calls:
             self.ev.calls.append((n, name, args, kwargs))
+        self.ev.events.append(('call', name, args, kwargs, n, tuple(self.ev.ctx)))
         model = self.ev.call_models.get(name)
         if model is not None:
             return model(self, n, args, kwargs)
@@ -797,6 +871,8 @@ class Frame:
             return f'{target.module}:{target.name}'
         if isinstance(target, ExtRef):
             return f'{target.module}.{target.name}'
+        if isinstance(target, Opaque) and isinstance(f, ast.Attribute):
+            return target.tag  # value-based: independent of what the receiver's local variable is called
         return norm_src(f)
 
     def _inline(self, fi: FuncInfo, args: list, kwargs: dict, obj: Obj | None) -> Any:
